@@ -57,6 +57,7 @@ def run(chk: Check, proj: Project) -> None:
     s4_regex(chk, proj)
     s5_faithful(chk, proj)
     s5b_serialize_order(chk, proj)
+    s6_container_loop(chk, proj)
 
 
 # ---------------------------------------------------------------------------------------------
@@ -538,6 +539,45 @@ def s5b_serialize_order(chk: Check, proj: Project) -> None:
     ok = bool(tr) and bool(pf) and max(tr) < min(pf) and "prefix-misplaced" not in order
     chk.ob("S5b", "util.tag_parser:TagValuePart.serialize:wrap-order", m.loc(f), ok, f"wrapping steps in order: {order}" if ok else
            f"the serialisation steps are {order}: a filter / spread prefix is applied before (inside) the translation wrapper, so `name|default:_(\"x\")` serialises to text that re-parses to different arguments")
+
+
+def s6_container_loop(chk: Check, proj: Project) -> None:
+    chk.rule("S6", "the container loop of parse_tag is left only with an empty stack (every opened list/dict was closed, at least one entry exists) or by a raise; the look-ahead for the context's terminal tokens is made right after skipping whitespace")
+    m, f = proj.func("util.tag_parser", "parse_tag")
+    loops = []
+    for lp in [x for x in ast.walk(f) if isinstance(x, ast.While)]:
+        names = {n.id for n in ast.walk(lp.test) if isinstance(n, ast.Name)}
+        pushes = [c for c in ast.walk(lp) if isinstance(c, ast.Call) and isinstance(c.func, ast.Attribute) and c.func.attr == "append" and isinstance(c.func.value, ast.Name) and c.func.value.id in names]
+        pops = [c for c in ast.walk(lp) if isinstance(c, ast.Call) and isinstance(c.func, ast.Attribute) and c.func.attr == "pop" and isinstance(c.func.value, ast.Name) and c.func.value.id in names]
+        if pushes and pops:
+            loops.append((lp, pushes[0].func.value.id))
+    if len(loops) != 1:
+        chk.undecided("S6", "util.tag_parser:parse_tag:container-loop", m.loc(f), f"{len(loops)} candidate container loops")
+        return
+    lp, st = loops[0]
+    t = norm(lp.test)
+    only_stack = t in (f"len({st}) > 0", st, f"len({st})", f"len({st}) != 0", f"len({st}) >= 1", f"0 < len({st})")
+    brk = [x for x in ast.walk(lp) if isinstance(x, ast.Break) and next((a for a in ancestors(x) if isinstance(a, (ast.While, ast.For))), None) is lp]
+    ok = only_stack and not brk
+    chk.ob("S6", "util.tag_parser:parse_tag:container-loop-exits-on-empty-stack-only", m.loc(brk[0]) if brk else m.loc(lp), ok,
+           f"`while {t}` with no break: the loop ends only when every container has been closed" if ok else
+           f"the container loop can be left while containers are still open (`while {t}`" + (", break" if brk else "") + "): a value that is cut off at the end of the tag (`key=`, `[1, 2`) is no longer rejected with TemplateSyntaxError - the unwrap `entries[0]` after the loop raises IndexError or the unterminated literal is silently accepted")
+    n = 0
+    for iff in [x for x in ast.walk(f) if isinstance(x, ast.If)]:
+        for c in [c for c in ast.walk(iff.test) if isinstance(c, ast.Call) and norm(c.func) == "is_next_token" and c.args and isinstance(c.args[0], ast.Name) and c.args[0].id not in ("tokens",)]:
+            if enclosing_func(c) is None or enclosing_func(c).name != "parse_value" and "terminal" not in c.args[0].id:
+                continue
+            if "terminal" not in c.args[0].id:
+                continue
+            n += 1
+            blk = next((b for a in ancestors(iff) for b in (getattr(a, "body", None), getattr(a, "orelse", None)) if isinstance(b, list) and iff in b), [])
+            i = blk.index(iff) if iff in blk else 0
+            prev = blk[i - 1] if i > 0 else None
+            okw = prev is not None and isinstance(prev, ast.Expr) and isinstance(prev.value, ast.Call) and norm(prev.value.func) == "take_while" and "WHITESPACE" in norm(prev.value)
+            chk.ob("S6", f"util.tag_parser:parse_tag:terminal-lookahead-after-whitespace:{norm(c.args[0])}", m.loc(iff), okw,
+                   "the terminal-token look-ahead directly follows take_while(TAG_WHITESPACE)" if okw else
+                   f"`{short(iff.test)}` is evaluated before the whitespace after the value is skipped: in `{{\"key\"|upper : val}}` the `:` is no longer recognised as the key/value separator but read as a filter argument, so the tag serialises to text that re-parses differently (or raises for `{{\"a\" : 1}}`)")
+    chk.floor("S6", n, 1)
 
 
 def s5_faithful(chk: Check, proj: Project) -> None:
